@@ -210,7 +210,10 @@ class ABNF:
         return code in VALID_CLOSE_STATUS or (3000 <= code < 5000)
 
     def __str__(self) -> str:
-        return f"fin={self.fin} opcode={self.opcode} data={self.data}"
+        # same text as before; formatting bytes directly is a BytesWarning
+        # (an error under "python -bb")
+        data = self.data if isinstance(self.data, str) else repr(self.data)
+        return f"fin={self.fin} opcode={self.opcode} data={data}"
 
     @staticmethod
     def create_frame(data: Union[bytes, str], opcode: int, fin: int = 1) -> "ABNF":
